@@ -852,3 +852,10 @@ impl PacketReceiver {
         self.assembly_window.verif_alloc()
     }
 }
+
+#[cfg(uflow_verif)]
+impl PacketReceiver {
+    pub fn verif_max_alloc(&self) -> usize {
+        self.assembly_window.verif_max_alloc()
+    }
+}
